@@ -323,7 +323,7 @@ func genC07(t *rapid.T) c07Case {
 func TestC07(t *testing.T) {
 	// exhaustive per-column contribution: all 17x17 symbol pairs appended to two fixed contexts
 	ctxs := [][2]string{
-		{"ACGTACGTACGT", "ACGTACGTACGT"},       // identical resolved context
+		{"ACGTACGTACGT", "ACGTACGTACGT"},     // identical resolved context
 		{"ACGTACGTACGTAA", "GCGTATGTACCTAA"}, // one A/G, one C/T, one transversion already present
 	}
 	n := runEnumerated(t, "C07", func(yield func(c07Case) bool) {
